@@ -140,12 +140,18 @@ func keyShape(f *Func, e ast.Expr) string {
 		if x.Op == token.ADD {
 			// leftmost operand constant prefix
 			l := ast.Expr(x)
-			for {
+			for depth := 0; depth < 8; depth++ {
 				b, ok := ast.Unparen(l).(*ast.BinaryExpr)
-				if !ok || b.Op != token.ADD {
-					break
+				if ok && b.Op == token.ADD {
+					l = b.X
+					continue
 				}
-				l = b.X
+				// a prefix held in a variable first
+				if r := f.ResolveDeep(l).E; r != l {
+					l = r
+					continue
+				}
+				break
 			}
 			if s, ok := constString(info, l); ok {
 				return "concat-prefix:" + s
